@@ -234,7 +234,33 @@ fn check_hours(ctx: &Ctx, civ: &Civil, tm: &Terms, ord: usize, loc: &mut Local) 
       let st = mk_time(civ, inst);
       let lh = st.get_lunar_hour();
       let sh = st.get_sixty_cycle_hour();
-      (lh.get_nine_star().get_index() as i64, sh.get_nine_star().get_index() as i64, lh.get_twelve_star().get_index(), sh.get_twelve_star().get_index(), lh.get_minor_ren().get_index(), lh.get_lunar_day().get_minor_ren().get_index(), lh.get_index_in_day())
+      let base = (lh.get_nine_star().get_index() as i64, sh.get_nine_star().get_index() as i64, lh.get_twelve_star().get_index(), sh.get_twelve_star().get_index(), lh.get_minor_ren().get_index(), lh.get_lunar_day().get_minor_ren().get_index(), lh.get_index_in_day());
+      // history + chain: the lunar hour whose views were just resolved, stepped inside the same day, must carry the
+      // stars of the hour it now denotes (= the hour built afresh from the clock two / four hours on)
+      let mut stepped: Vec<(isize, [usize; 5], [usize; 5])> = Vec::new();
+      for n in [1isize, 2, -1] {
+        let hh = h as isize + 2 * n;
+        if hh < 1 || hh > 22 {
+          continue;
+        }
+        let view = |x: &tyme4rs::tyme::lunar::LunarHour| {
+          let xs = x.get_sixty_cycle_hour();
+          [x.get_nine_star().get_index(), xs.get_nine_star().get_index(), x.get_twelve_star().get_index(), xs.get_twelve_star().get_index(), x.get_minor_ren().get_index()]
+        };
+        let s = lh.next(n);
+        let fresh = mk_time(civ, inst + 7200 * n as i64).get_lunar_hour();
+        stepped.push((n, view(&s), view(&fresh)));
+      }
+      (base, stepped)
+    });
+    let r = r.map(|(base, stepped)| {
+      for (n, got, want) in stepped {
+        loc.transitions += 1;
+        if got != want {
+          ctx.violation("hour_stepped", format!("{} next({})", fmt_inst(civ, inst), n), format!("the lunar hour (views already resolved) stepped by {} double-hours has [nine star, nine star via sexagenary hour, twelve star, twelve star via sexagenary hour, minor Ren] = {:?}; the hour built afresh from the clock: {:?}", n, got, want), vec!["hours".to_string(), ord.to_string()]);
+        }
+      }
+      base
     });
     let rp = vec!["hours".to_string(), ord.to_string()];
     match r {
